@@ -337,8 +337,20 @@ def extra(ctx, out, quick_n=80, thorough_n=1000):
     out.corr_errors.extend(nc_errs)
     dist['no_conflict2_evaluated'] = len(nc_cases)
     dist['no_conflict2_true'] = len(nc_cases) - len(nc_bad)
+    # the hypotheses of Main2_defined_once (countries_wf2 on the program, names_wf on the built system)
+    wf_cases = [c.replace('no_conflict2 ', 'wf_defined_once2__ ', 1) for c in nc_cases]
+    wf_bad, wf_errs = common.run_bool_cases(
+        FAMILY, REQUIRES + ['From SFC.GenMain2 Require Import Names Names2.'], wf_cases, tag='wf2' + ctx.pid, shard=10,
+        defs='Definition wf_defined_once2__ (p : program2) : bool := countries_wf2 p && match build2 p with Ok E => names_wf E | Err _ => true end.')
+    out.corr_errors.extend(wf_errs)
+    dist['defined_once_hypotheses_true'] = len(wf_cases) - len(wf_bad)
     out.evaluations += len(cases)
     out.nontrivial += len(distinct)
+    # minimum-count guard: an empty or almost empty stream must not pass for a tie
+    n_eval__ = max([v for k, v in dist.items() if isinstance(v, int) and k in ('programs', 'pairs', 'cases', 'sets', 'joints', 'evaluated')] + [0])
+    if n_eval__ < 5:
+        out.corr_errors.append('gen_main2: only %d cases were evaluated (distribution %r)' % (n_eval__, {k: v for k, v in dist.items() if isinstance(v, int)}))
+
     out.extra['main2_model'] = dist
     out.trusted_base = list(out.trusted_base or []) + TRUSTED
     if metas:
